@@ -232,13 +232,18 @@ def startValue {α : Type} (evs : List (Int × α)) (init : Option α) : Option 
 def dumpOf (ends : List Int) (period : Int) (t : Int) : Int :=
   ((((ends.headD 0 - period) :: ends).filter (· < t)).length : Int) - 1
 
+/-- the optional transform as a function (`None` = identity) -/
+def trFun (tr : Option (V → V)) : V → V :=
+  match tr with
+  | some f => f
+  | none => id
+
 /-- **The documented rule** (C10): one value per dump, `none` when no value is defined at all
     (no dumps, or no event and no initial value). -/
 def rule (ts : List Int) (vals : List V) (ends : List Int) (period : Int)
     (tr : Option (V → V)) (init : Option V) (greedyVals : List V) : Option (List V) :=
   if ends = [] then none else
-  let f : V → V := match tr with | some f => f | none => id
-  let evs : List (Int × V) := List.zip (ts.map (dumpOf ends period)) (vals.map f)
+  let evs : List (Int × V) := List.zip (ts.map (dumpOf ends period)) (vals.map (trFun tr))
   match startValue evs init with
   | none => none
   | some s => some (ruleFrom (fun v => greedyVals.contains v) evs 0 ends.length s)
